@@ -9,6 +9,7 @@
 -/
 import PyFV.Lemmas.MMatrix
 import PyFV.Props.Examples
+import Mathlib.Algebra.BigOperators.Fin
 
 set_option linter.unusedSectionVars false
 
@@ -155,36 +156,56 @@ theorem ghost_periodic (M : Mesh α) (hM : M.WF) (bc : BCs α) (d : Dir) (c : Id
     x (c.set d (M.n d + 1)) = x (c.set d 1) ∧ x (c.set d 0) = x (c.set d (M.n d)) :=
   bcRow_periodic M bc d c x hper heq (ne_of_gt ((hM.axis d).pos _)) hhi hlo
 
+/-- periodic direction, arbitrary end cells (`r = DX_{n+1}/DX_0`, `θ = 2/(1+r)`): each ghost is
+    `x_cell + (non-negative factor) · (x_opposite − x_cell)` — so it never exceeds its cell when
+    that cell carries the maximum, whatever the spacing -/
+theorem ghost_periodic_general (M : Mesh α) (hM : M.WF) (bc : BCs α) (d : Dir) (c : Idx)
+    (x : CellFld α) (hper : bc.periodicDir d = true)
+    (hhi : (bcRowHi M bc d c).app x = (bcRowHi M bc d c).rhs)
+    (hlo : (bcRowLo M bc d c).app x = (bcRowLo M bc d c).rhs) :
+    ∃ θ r : α, 0 < θ ∧ 0 < r ∧
+      x (c.set d (M.n d + 1)) = x (c.set d (M.n d)) + r * θ * (x (c.set d 1) - x (c.set d (M.n d))) ∧
+      x (c.set d 0) = x (c.set d 1) + θ * (x (c.set d (M.n d)) - x (c.set d 1)) := by
+  have hn := (hM.axis d).pos (M.n d + 1)
+  have h0 := (hM.axis d).pos 0
+  exact ⟨_, _, div_pos two_pos (add_pos one_pos (div_pos hn h0)), div_pos hn h0,
+    (bcRow_periodic_general M bc d c x hper hn h0 hhi hlo).1,
+    (bcRow_periodic_general M bc d c x hper hn h0 hhi hlo).2⟩
+
 /-- **The ghost never exceeds a maximal cell that exceeds the bound** (high end of the line
     through `c` along `d`; the adjacent cell is `c.set d n`).  Dirichlet: `x_g = 2c_D − x_c < x_c`
-    because `c_D ≤ Mx < x_c`; no-flux: `x_g = x_c`; periodic: `x_g` is the value of the first
-    cell of the line, an interior value. -/
+    because `c_D ≤ Mx < x_c`; no-flux: `x_g = x_c`; periodic: `x_g = x_c + rθ (x_first − x_c)` with
+    `rθ > 0` (`= x_first` for equal end cells), `x_first` being an interior value. -/
 theorem ghost_le_of_bc_hi (M : Mesh α) (hM : M.WF) (bc : BCs α) (d : Dir) (c : Idx)
     (x : CellFld α) (Mx : α) (hc : M.interior c)
-    (hkind : (bc.periodicDir d = true ∧ (M.axis d).DX (M.n d + 1) = (M.axis d).DX 0
+    (hkind : (bc.periodicDir d = true
                 ∧ (bcRowLo M bc d c).app x = (bcRowLo M bc d c).rhs) ∨
              (bc.periodicDir d = false ∧
                 (((bc.hi d).isDirichlet c ∧ (bc.hi d).c c ≤ Mx) ∨ (bc.hi d).isNoFlux c)))
     (hhi : (bcRowHi M bc d c).app x = (bcRowHi M bc d c).rhs)
     (hmax : x (c.set d 1) ≤ x (c.set d (M.n d))) (hgt : Mx < x (c.set d (M.n d))) :
     x (c.set d (M.n d + 1)) ≤ x (c.set d (M.n d)) := by
-  rcases hkind with ⟨hper, heq, hlo⟩ | ⟨hper, ⟨hdir, hle⟩ | hnf⟩
-  · rw [(ghost_periodic M hM bc d c x hper heq hhi hlo).1]; exact hmax
+  rcases hkind with ⟨hper, hlo⟩ | ⟨hper, ⟨hdir, hle⟩ | hnf⟩
+  · obtain ⟨θ, r, hθ, hr, e, -⟩ := ghost_periodic_general M hM bc d c x hper hhi hlo
+    have := mul_nonneg (mul_pos hr hθ).le (sub_nonneg.2 hmax)
+    rw [e]; nlinarith
   · rw [ghost_dirichlet_hi M bc d c x hper hdir hhi]; linarith
   · exact le_of_eq (ghost_noflux_hi M hM bc d c x hc hper hnf hhi)
 
 /-- the same at the low end (adjacent cell `c.set d 1`) -/
 theorem ghost_le_of_bc_lo (M : Mesh α) (hM : M.WF) (bc : BCs α) (d : Dir) (c : Idx)
     (x : CellFld α) (Mx : α) (hc : M.interior c)
-    (hkind : (bc.periodicDir d = true ∧ (M.axis d).DX (M.n d + 1) = (M.axis d).DX 0
+    (hkind : (bc.periodicDir d = true
                 ∧ (bcRowHi M bc d c).app x = (bcRowHi M bc d c).rhs) ∨
              (bc.periodicDir d = false ∧
                 (((bc.lo d).isDirichlet c ∧ (bc.lo d).c c ≤ Mx) ∨ (bc.lo d).isNoFlux c)))
     (hlo : (bcRowLo M bc d c).app x = (bcRowLo M bc d c).rhs)
     (hmax : x (c.set d (M.n d)) ≤ x (c.set d 1)) (hgt : Mx < x (c.set d 1)) :
     x (c.set d 0) ≤ x (c.set d 1) := by
-  rcases hkind with ⟨hper, heq, hhi⟩ | ⟨hper, ⟨hdir, hle⟩ | hnf⟩
-  · rw [(ghost_periodic M hM bc d c x hper heq hhi hlo).2]; exact hmax
+  rcases hkind with ⟨hper, hhi⟩ | ⟨hper, ⟨hdir, hle⟩ | hnf⟩
+  · obtain ⟨θ, r, hθ, hr, -, e⟩ := ghost_periodic_general M hM bc d c x hper hhi hlo
+    have := mul_nonneg hθ.le (sub_nonneg.2 hmax)
+    rw [e]; nlinarith
   · rw [ghost_dirichlet_lo M bc d c x hper hdir hlo]; linarith
   · exact le_of_eq (ghost_noflux_lo M hM bc d c x hc hper hnf hlo)
 
@@ -195,10 +216,11 @@ theorem ghost_le_of_bc_lo (M : Mesh α) (hM : M.WF) (bc : BCs α) (d : Dir) (c :
 theorem nbr_le_of_tied {S : Finset Idx} {x : CellFld α} {Mx : α} {c nb : Idx}
     (hmax : ∀ c' ∈ S, x c' ≤ x c) (hgt : Mx < x c)
     (h : NbrTied S x (fun v => v ≤ Mx) c nb) : x nb ≤ x c := by
-  rcases h with h | h | ⟨c', hc', h⟩ | ⟨cD, hP, h⟩
+  rcases h with h | h | ⟨c', hc', θ, hθ, h⟩ | ⟨cD, hP, h⟩
   · exact hmax nb h
   · exact le_of_eq h
-  · rw [h]; exact hmax c' hc'
+  · have := mul_nonneg hθ (sub_nonneg.2 (hmax c' hc'))
+    rw [h]; nlinarith
   · rw [h]; linarith
 
 /-- **Discrete maximum principle** for one implicit step on the cell set `S`:
@@ -292,7 +314,7 @@ theorem steps_nonneg (M : Mesh α) (hM : M.WF) (hA : ∀ d f, 0 ≤ lineA M d f)
 
 /-- **Maximum principle for the assembled system.**  `x` solves the system assembled from
     `[transientTerm(old,dt,alpha), -diffusionTerm(D), convectionUpwindTerm(u), linearSourceTerm(β)]`
-    and boundary conditions that are, per active direction, periodic (equal end cells) or
+    and boundary conditions that are, per active direction, periodic (any end cells) or
     face-wise Dirichlet / no-flux: every interior value of `x` is `≤` any bound of the old
     interior values and the Dirichlet data (`0 ≤ Mx` required only if some `β > 0`). -/
 theorem max_principle_solves (M : Mesh α) (hM : M.WF) (hA : ∀ d f, 0 ≤ lineA M d f)
@@ -345,6 +367,23 @@ theorem steps_solves (M : Mesh α) (hM : M.WF) (hA : ∀ d f, 0 ≤ lineA M d f)
     (fun k hk => isStep_of_solves M hM bc _ hbc (D k) (u k) (β k) (alpha k) (xs k) (dt k)
       (hD k) (hdiv k) (hβ k) (hα k) (hdt k) (xs (k+1)) (hx k hk)) h0 hβM
 
+/-- **Uniqueness.**  The assembled system determines the interior values: two solutions of the
+    same step agree on every interior cell (maximum and minimum principle applied to their
+    difference, which solves the homogeneous step) — the model-level form of `mmatrix_unique`. -/
+theorem solution_unique (M : Mesh α) (hM : M.WF) (hA : ∀ d f, 0 ≤ lineA M d f)
+    (bc : BCs α) (P : α → Prop) (hbc : BCsOK M bc P) (D u : FaceFld α) (β alpha old : CellFld α)
+    (dt : α) (hD : ∀ d c, 0 ≤ D d c) (hdiv : ∀ c ∈ M.cells, divergence M u c = 0)
+    (hβ : ∀ c ∈ M.cells, 0 ≤ β c) (hα : ∀ c ∈ M.cells, 0 < alpha c) (hdt : 0 < dt)
+    (x y : CellFld α) (hx : Solves M bc (stepTerms M D u β old dt alpha) x)
+    (hy : Solves M bc (stepTerms M D u β old dt alpha) y) : ∀ c ∈ M.cells, x c = y c := by
+  intro c hc
+  have hz := Solves.sub hx hy
+  have h1 := max_principle_solves M hM hA bc.homog D u β alpha (fun _ => 0) dt 0
+    (hbc.homog _ (le_refl 0)) hD hdiv hβ hα hdt _ hz (fun _ _ => le_refl 0) (fun _ => le_refl 0) c hc
+  have h2 := min_principle_solves M hM hA bc.homog D u β alpha (fun _ => 0) dt 0
+    (hbc.homog _ (le_refl 0)) hD hdiv hβ hα hdt _ hz (fun _ _ => le_refl 0) (fun _ => le_refl 0) c hc
+  linarith
+
 /-- the interior `Finset` is exactly the set of interior cells inside the index box -/
 theorem mem_cells_iff (M : Mesh α) (hM : M.WF) (c : Idx) :
     c ∈ M.cells ↔ M.interior c ∧ M.inBox c := by
@@ -371,7 +410,6 @@ theorem examples_lineA_nonneg (k : Kind) (d : Dir) (f : ℕ) : 0 ≤ lineA (Exam
     first
     | exact h3
     | positivity
-    | norm_num
 
 /-- `row_structure` instantiated over ℚ on the non-uniform cylindrical example mesh:
     `D ≡ 1`, `u ≡ 0`, `β ≡ 0`, `alpha ≡ 1`, `dt = 1/10` -/
@@ -434,6 +472,27 @@ example (D : FaceFld ℚ) (v : ℚ) :
       simp only [bcRow, h1]
       split_ifs <;>
         simp [bcRowLo, bcRowHi, BCs.periodicDir, Row.app_two, loCellCoef, loGhostCoef,
-          hiCellCoef, hiGhostCoef] <;> ring
+          hiCellCoef, hiGhostCoef]
+
+/-- periodic directions (any end cells) and Dirichlet faces are admissible too -/
+example (k : Kind) (v : ℚ) :
+    BCsOK (Examples.mesh k)
+      ⟨fun _ => ⟨fun _ => 1, fun _ => 0, fun _ => 0, true⟩,
+       fun _ => ⟨fun _ => 1, fun _ => 0, fun _ => 0, true⟩⟩ (fun w => w ≤ v) ∧
+    BCsOK (Examples.mesh k)
+      ⟨fun _ => ⟨fun _ => 0, fun _ => 1, fun _ => v, false⟩,
+       fun _ => ⟨fun _ => 0, fun _ => 1, fun _ => v - 1, false⟩⟩ (fun w => w ≤ v) :=
+  ⟨fun _ _ => Or.inl rfl,
+   fun _ _ => Or.inr ⟨rfl, fun _ => ⟨Or.inl ⟨⟨rfl, rfl⟩, le_refl v⟩,
+     Or.inl ⟨⟨rfl, rfl⟩, by simp⟩⟩⟩⟩
+
+/-- the abstract M-matrix hypotheses are satisfiable (a 2×2 implicit-diffusion matrix) -/
+example : ∀ x y : Fin 2 → ℚ,
+    (∀ i, ∑ j, (if i = j then (3 : ℚ) else -1) * x j = ∑ j, (if i = j then (3 : ℚ) else -1) * y j)
+      → x = y :=
+  fun x y h => mmatrix_unique (fun i j => if i = j then (3 : ℚ) else -1)
+    (fun i j hij => by simp [Ne.symm hij])
+    (Fin.forall_fin_two.2 ⟨by simp [Fin.sum_univ_two], by simp [Fin.sum_univ_two]⟩)
+    x y h
 
 end PyFV.C07
